@@ -140,7 +140,7 @@ def generate(seed, run, tier):
          "missing": 1, "cget": 2}
     kinds = [k for k, v in w.items() for _ in range(v)]
     chunk = rs.choice([1, 1, 3, 64, 500, 5000])
-    for _ in range(rs.choice([3, 10, 20, 40])):
+    for _ in range(rs.choice([3, 10, 20, 40] if tier == "quick" else [3, 10, 20, 40, 80])):
         k = rq.choice(kinds)
         st = {"op": k}
         if k == "md5sums":
